@@ -582,13 +582,14 @@ def r11e(model: Model, rr: RuleResult):
         rr.bad(afi, c, "_sort_by_gid is not applied to coverage.glyphs with font.getGlyphID", construct=short(c))
     defs = acfg.reaching(acfg.node_for(c), norm(c.args[2]))
     okd = bool(defs)
+    from ..dataflow import values_through_new_helper
     for d in defs:
-        v = d.value
-        if isinstance(v, ast.Constant) and v.value is None:
-            continue
-        if isinstance(v, ast.Call) and norm(v.func) == "_get_dotted_attr" and [norm(a) for a in v.args] == ["value", "self.parallel_list_attr"]:
-            continue
-        okd = False
+        for v in (values_through_new_helper(model, afi, d.value) if d.value is not None else [None]):
+            if isinstance(v, ast.Constant) and v.value is None:
+                continue
+            if isinstance(v, ast.Call) and norm(v.func) == "_get_dotted_attr" and [norm(a) for a in v.args] == ["value", "self.parallel_list_attr"]:
+                continue
+            okd = False
     setters = [x for x in calls_in(afi) if norm(x.func) == "setattr"]
     if okd and not setters:
         rr.ok("the parallel list handed to _sort_by_gid is the table's own list object (resolved through the dotted path); it is updated in place")
